@@ -56,6 +56,21 @@ func c08Specs(tier string, seed int) []c08Spec {
 			}
 		}
 	}
+	// air-dry profiles given as volumetric water content in the measured-values file (below one third of the wilting
+	// point: a state the model does not reach by itself, but which the user-supplied file may impose)
+	for _, et := range []int{1, 2, 3, 4, 5} {
+		for _, vol := range []float64{0.004, 0.02, 0.05} {
+			for _, c := range []struct {
+				crop string
+				warm int
+			}{{"", 0}, {"SW", 30}} {
+				for _, so := range []string{"loam12", "sand20"} {
+					b := e1Base{Soil: so, GW: 99, InitVol: []float64{vol}, InitN: 40, Crop: c.crop, WarmUp: c.warm, ET: et, Start: "2001-06-20"}
+					out = append(out, c08Spec{Base: b, Lat: 52, Sun: et%2 == 0, Alpha: c08Alpha, D: d})
+				}
+			}
+		}
+	}
 	return out
 }
 
